@@ -21,6 +21,10 @@ pub enum Style {
     WtClose(u64, Vec<u8>),
     Reset(u64),
     FinInsideData,
+    /// FIN inside a frame: (type selector, declared length, bytes present: 0 = right after the
+    /// length, 255 = FIN inside the length varint, 254 = FIN inside the type varint)
+    #[serde(alias = "FinInsideFrame")]
+    FinInsideFrame(u8, u8, u8),
     /// 0 value shorter than 4 bytes, 1 longer than 1028, 2 invalid UTF-8 reason
     Malformed(u8),
 }
@@ -64,6 +68,7 @@ pub fn case_strategy() -> impl Strategy<Value = Case> {
         2 => (code62.clone(), proptest::collection::vec(any::<u8>(), 0..60)).prop_map(|(c, r)| Style::WtClose(c, r)),
         2 => code62.prop_map(Style::Reset),
         1 => Just(Style::FinInsideData),
+        3 => (0u8..5, 1u8..60, prop_oneof![3 => Just(0u8), 2 => any::<u8>(), 1 => Just(255u8), 1 => Just(254u8)]).prop_map(|(t, d, p)| Style::FinInsideFrame(t, d, p)),
         3 => (0u8..3).prop_map(Style::Malformed),
     ];
     (0u8..3, any::<bool>(), style, 0u8..3, 0u8..4).prop_map(|(flavor, wt_is_server, style, phase, open_streams)| Case { flavor, wt_is_server, style, phase, open_streams })
@@ -195,6 +200,25 @@ async fn exec_async(case: Arc<Case>) -> CaseResult {
                         let _ = req_send.write_all(&b).await;
                         let _ = req_send.finish();
                     }
+                    Style::FinInsideFrame(t, declared, present) => {
+                        // DATA, HEADERS, GREASE, an unknown type (2-byte varint), an unknown type (1 byte)
+                        let ty = [refcodec::registry::FRAME_DATA, refcodec::registry::FRAME_HEADERS, refcodec::grease(40), 0x4242, 0x2f][*t as usize % 5];
+                        let mut b = refcodec::enc_frame_header(ty, (*declared as u64).max(1) + if *present == 255 { 100 } else { 0 });
+                        match *present {
+                            255 => {
+                                // cut inside the (2-byte) length varint
+                                b.truncate(b.len() - 1);
+                            }
+                            254 => {
+                                // cut inside the type varint (only multi-byte types), else right after it
+                                let tl = refcodec::varint_len(ty);
+                                b.truncate(if tl > 1 { tl - 1 } else { tl });
+                            }
+                            p => b.extend(std::iter::repeat(0x5a).take((p as usize) % (*declared as usize).max(1))),
+                        }
+                        let _ = req_send.write_all(&b).await;
+                        let _ = req_send.finish();
+                    }
                     Style::Malformed(k) => {
                         let value: Vec<u8> = match k % 3 {
                             0 => vec![0, 0, 1],
@@ -265,7 +289,7 @@ async fn exec_async(case: Arc<Case>) -> CaseResult {
                 return viol("C04:closed-value", format!("closed() reported {e}, expected {:?}", expect));
             }
         }
-        Style::Reset(_) | Style::FinInsideData | Style::Malformed(_) => {
+        Style::Reset(_) | Style::FinInsideData | Style::FinInsideFrame(..) | Style::Malformed(_) => {
             let (rc, _, _) = raw.as_ref().unwrap();
             match tokio::time::timeout(bound, rc.closed()).await {
                 Ok(e) => match close_seen(&e) {
@@ -294,6 +318,7 @@ fn style_name(s: &Style) -> &'static str {
         Style::WtClose(..) => "wt-close",
         Style::Reset(_) => "reset",
         Style::FinInsideData => "fin-inside-data",
+        Style::FinInsideFrame(..) => "fin-inside-frame",
         Style::Malformed(_) => "malformed-capsule",
     }
 }
@@ -307,6 +332,8 @@ fn style_label(s: &Style) -> &'static str {
         Style::WtClose(..) => "style:wt-close",
         Style::Reset(_) => "style:reset",
         Style::FinInsideData => "style:fin-inside-data",
+        Style::FinInsideFrame(t, _, 0) if *t % 5 >= 3 => "style:fin-after-unknown-frame-header",
+        Style::FinInsideFrame(..) => "style:fin-inside-frame",
         Style::Malformed(_) => "style:malformed-capsule",
     }
 }
@@ -329,7 +356,7 @@ pub fn run(run: &Run) {
         |c| judge(|| exec(c), false, "C04:hang"),
         |c| serde_json::to_value(c).unwrap(),
     );
-    for l in ["style:capsule", "style:capsule-long-reason", "style:fin", "style:quic-close", "style:wt-close", "style:reset", "style:fin-inside-data", "style:malformed-capsule"] {
+    for l in ["style:capsule", "style:capsule-long-reason", "style:fin", "style:quic-close", "style:wt-close", "style:reset", "style:fin-inside-data", "style:fin-inside-frame", "style:fin-after-unknown-frame-header", "style:malformed-capsule"] {
         run.essential(l);
     }
 }
